@@ -583,3 +583,73 @@ Section run.
     - intros k j Hk. left. apply elem_of_dom. eauto.
   Qed.
 End run.
+
+(* ---------- what lint-cleanliness gives ---------- *)
+Lemma gen_tables_ok : tables_ok gen_tables = true. Proof. vm_compute. reflexivity. Qed.
+Lemma lint_facts C : lint_clean C → c_bbs C = ∅ →
+  (∀ k, k ∈ dom (c_g C) → has_dot k = false) ∧ (∀ n i, c_g C !! n = Some i → arity_ok i).
+Proof.
+  intros Hl Hb. assert (Hnv : ¬ violates C default_flags) by (apply (lint_ok_iff gen_tables gen_tables_ok); exact Hl).
+  split.
+  - intros k [i Hi]%elem_of_dom. destruct (has_dot k) eqn:E; [|done]. exfalso. apply Hnv. left. exists k, i. split; [done|].
+    right. left. split; [done|]. rewrite Hb, dom_empty_L. apply not_elem_of_empty.
+  - intros n i Hi.
+    assert (H0 : n_ty i ∈ (doc_single ++ doc_multi)%list → n_fi i ≠ ∅).
+    { intros Ht E. apply Hnv. left. exists n, i. split; [done|]. do 5 right. left. done. }
+    assert (H1 : n_ty i ∈ doc_single → size (n_fi i) ≤ 1).
+    { intros Ht. destruct (decide (1 < size (n_fi i))) as [Hgt|]; [|lia]. exfalso. apply Hnv. left. exists n, i. split; [done|].
+      do 4 right. left. done. }
+    unfold arity_ok. destruct (n_ty i) eqn:Et; try done;
+      try (apply H0; unfold doc_single, doc_multi; simpl; set_solver).
+    + assert (size (n_fi i) = 1) as Hs.
+      { assert (size (n_fi i) ≠ 0) by (intros ?%size_empty_iff%leibniz_equiv; revert H; apply H0; unfold doc_single, doc_multi; simpl; set_solver).
+        assert (size (n_fi i) ≤ 1) by (apply H1; unfold doc_single; set_solver). lia. }
+      apply size_1_elem_of in Hs as [p Hp]. exists p. by apply leibniz_equiv.
+    + assert (size (n_fi i) = 1) as Hs.
+      { assert (size (n_fi i) ≠ 0) by (intros ?%size_empty_iff%leibniz_equiv; revert H; apply H0; unfold doc_single, doc_multi; simpl; set_solver).
+        assert (size (n_fi i) ≤ 1) by (apply H1; unfold doc_single; set_solver). lia. }
+      apply size_1_elem_of in Hs as [p Hp]. exists p. by apply leibniz_equiv.
+Qed.
+
+(* ---------- the theorem about the model of tx.ternary itself ---------- *)
+Theorem model_kleene C nodes fo R μ : lint_clean C → closed (c_g C) → ternary C nodes fo = Ok (R, μ) →
+  dom μ = dom (c_g C) ∧ c_g C ⊆ c_g R ∧
+  (∀ n i, c_g C !! n = Some i → comp_ok (c_g R) (mu_name (c_g C)) n i) ∧
+  ∀ v, consistent (c_g R) v → kconsistent (c_g C) (kof μ v).
+Proof.
+  intros Hl Hcl H. unfold ternary in H. rewrite gen_ttab_ok in H.
+  apply ternary_ok_inv in H as (Hb & Ho & -> & _ & _ & Hrun).
+  destruct (lint_facts C Hl Hb) as [Hnd Har]. set (c := c_g C) in *.
+  unfold orders_ok in Ho. apply andb_true_iff in Ho as [Ho Hfo]. apply andb_true_iff in Ho as [Hnodup Hset].
+  apply bool_decide_eq_true in Hnodup, Hset.
+  assert (Hin : ∀ n, n ∈ dom c → n ∈ nodes) by (intros n Hn; rewrite <- Hset in Hn; by apply elem_of_list_to_set in Hn).
+  assert (Hnodes : ∀ n i, c !! n = Some i → list_to_set (fo n) = n_fi i ∧ (∀ p, p ∈ n_fi i → p ∈ dom c) ∧ arity_ok i).
+  { intros n i Hi. split; [|split; [intros p Hp; eapply Hcl; eauto|by eapply Har]].
+    rewrite forallb_forall in Hfo. assert (n ∈ nodes) as Hn%elem_of_list_In by (apply Hin, elem_of_dom; eauto).
+    specialize (Hfo n Hn). apply andb_true_iff in Hfo as [_ Hf]. apply bool_decide_eq_true in Hf.
+    rewrite Hf. unfold fanin. by rewrite Hi. }
+  assert (Hall : ∀ n, n ∈ nodes → n ∈ dom c ∧ n ∉ ([] : list string)).
+  { intros n Hn. split; [rewrite <- Hset; by apply elem_of_list_to_set|apply not_elem_of_nil]. }
+  destruct (inv_run c fo Hnd Hnodes nodes c [] (c_g R) (inv_init c) Hnodup Hall Hrun) as (HA & HB & _ & _).
+  assert (HB' : ∀ n i, c !! n = Some i → comp_ok (c_g R) (mu_name c) n i).
+  { intros n i Hi. apply HB; [|done]. rewrite app_nil_r. apply elem_of_list_In. apply (proj1 (in_rev nodes n)). apply elem_of_list_In. apply Hin, elem_of_dom. eauto. }
+  split; [apply dom_mapping|]. split; [by apply map_subseteq_spec|]. split; [done|].
+  intros v Hv. apply (kconsistent_ext c (Kv v (mu_name c))); [done| |].
+  - intros n Hn. unfold kof, Kv, mu_at. by rewrite (proj2 (lookup_mapping c n (mu_name c n)) (conj Hn eq_refl)).
+  - apply (comp_sound c (c_g R) (mu_name c)); [|done]. intros n i Hi. split; [by apply HA|by apply HB'].
+Qed.
+
+(* companion at 0 => the node carries its value under every completion of the X inputs (model level) *)
+Theorem model_completion C nodes fo R μ (v w : val) : lint_clean C → closed (c_g C) → ternary C nodes fo = Ok (R, μ) →
+  acyclic (c_g C) → only_inputs_free (c_g C) → consistent (c_g R) v → consistent (c_g C) w →
+  (∀ i, i ∈ inputs (c_g C) → v (mu_at μ i) = false → w i = v i) →
+  ∀ n, n ∈ dom (c_g C) → v (mu_at μ n) = false → w n = v n.
+Proof.
+  intros Hl Hcl Ht Hac Hfree Hv Hw Hin n Hn Hx.
+  destruct (model_kleene C nodes fo R μ Hl Hcl Ht) as (_ & _ & _ & Hk).
+  pose proof (kleene_sound (c_g C) (kof μ v) w Hcl Hac Hfree (Hk v Hv) Hw) as H.
+  assert (Hi : ∀ i, i ∈ inputs (c_g C) → refines1 (kof μ v i) (w i)).
+  { intros i Hi. unfold kof. destruct (v (mu_at μ i)) eqn:E; [by left|]. right. by rewrite (Hin i Hi E). }
+  specialize (H Hi n Hn). unfold kof in H. rewrite Hx in H. destruct H as [H|H]; [by destruct (v n)|].
+  by destruct (v n), (w n).
+Qed.
